@@ -917,6 +917,101 @@ def collapse_stmts(toks):
     return " ".join(out)
 
 
+def enc_schema(src_ast, out_ast, hdr):
+    """whole schema -> request words of the Lean driver (`schema`): the declarations of the SOURCE, in the order exppp printed
+    them (taken from the parsed output: the order within a scope is an input of the Lean model)"""
+    def consts(src_scope, out_scope):
+        names = list(out_scope["consts"])
+        if sorted(names) != sorted(src_scope["consts"]):
+            raise DeclError(f"constants {sorted(src_scope['consts'])} -> {sorted(names)}")
+        return " ".join([str(len(names))] + [f"{hx(n)} {enc_ty(src_scope['consts'][n][0])}" for n in names])
+    def locals_(src_scope):
+        ls = src_scope["locals"]
+        return " ".join([str(len(ls))] + [f"{hx(n)} {1 if init is not None else 0} {enc_ty(t)}" for n, t, init in ls])
+    def decls(src_scope, out_scope):
+        keys = list(out_scope["decls"])
+        if sorted(keys) != sorted(src_scope["decls"]):
+            raise DeclError(f"declarations {sorted(src_scope['decls'])} -> {sorted(keys)}")
+        w = [str(len(keys))]
+        for k in keys:
+            d, o = src_scope["decls"][k], out_scope["decls"][k]
+            if k[0] == "type": w.append("TD " + enc_typedecl(k[1], d))
+            elif k[0] == "entity": w.append("EN " + enc_entity(k[1], d))
+            elif k[0] in ("function", "procedure"):
+                ps = source_params(hdr[k]) if k in hdr else []
+                if [(n, bool(v)) for n, v, _, _ in ps] != [(n, bool(v)) for n, v, _ in d["params"]]:
+                    raise DeclError(f"{k}: header slice does not belong to this declaration")
+                w.append(" ".join(["FN", hx(k[1]), str(len(ps))] + [f"{hx(n)} {int(v)} {ob} {enc_ty(t)}" for n, v, t, ob in ps]
+                                  + (["1", enc_ty(d["returns"])] if k[0] == "function" else ["0"])
+                                  + [decls(d, o), consts(d, o), locals_(d), enc_stmts(d["body"])]))
+            elif k[0] == "rule":
+                w.append(" ".join(["RL", hx(k[1]), str(len(d["for"]))] + [hx(x) for x in d["for"]]
+                                  + [decls(d, o), consts(d, o), locals_(d), enc_stmts(d["body"]), str(len(d["where"]))]
+                                  + [hx(l) if l else "-" for l, _ in d["where"]]))
+            else:
+                raise DeclError(f"declaration {k} has no Lean form")
+        return " ".join(w)
+    return " ".join([hx(src_ast["schema"]), consts(src_ast, out_ast), decls(src_ast, out_ast)])
+
+
+def collapse_schema(toks):
+    """the whole token stream exppp wrote for a schema -> the driver's token text (every expression becomes `E`)"""
+    p = P(toks); out = []
+    def upto(end):
+        a = p.i
+        while not p.at(end):
+            p.eat()
+        p.eat(end); p.eat(S(";"))
+        return p.t[a:p.i]
+    def scope(end_stmts):
+        decls()
+        if p.at(K("CONSTANT")): out.append(collapse_consts(upto(K("END_CONSTANT")))[1])
+        if p.at(K("LOCAL")): out.append(collapse_locals(upto(K("END_LOCAL"))))
+        a = p.i; p.stmts(end_stmts); out.append(collapse_stmts(p.t[a:p.i]))
+    def decls():
+        while True:
+            t = p.peek()
+            if t == K("TYPE"): out.append(collapse_typedecl(upto(K("END_TYPE"))))
+            elif t == K("ENTITY"): out.append(collapse_entity(upto(K("END_ENTITY"))))
+            elif t in (K("FUNCTION"), K("PROCEDURE")):
+                p.eat(); out.extend(["k:" + t[1], "i:" + p.ident()])
+                if p.at(S("(")):
+                    d, j = 0, p.i
+                    while True:
+                        if p.t[j] == S("("): d += 1
+                        elif p.t[j] == S(")"):
+                            d -= 1
+                            if d == 0: break
+                        j += 1
+                    out.extend(["s:(", collapse(p.t[p.i + 1:j]), "s:)"]); p.i = j + 1
+                if t == K("FUNCTION"):
+                    p.eat(S(":")); a = p.i; p.type_(); out.extend(["s::", collapse(p.t[a:p.i])])
+                p.eat(S(";")); out.append("s:;")
+                end = K("END_" + t[1])
+                scope((end,))
+                p.eat(end); p.eat(S(";")); out.extend(["k:END_" + t[1], "s:;"])
+            elif t == K("RULE"):
+                p.eat(); out.extend(["k:RULE", "i:" + p.ident()]); p.eat(K("FOR")); p.eat(S("(")); out.extend(["k:FOR", "s:("])
+                out.append("i:" + p.ident())
+                while p.opt(S(",")): out.extend(["s:,", "i:" + p.ident()])
+                p.eat(S(")")); p.eat(S(";")); out.extend(["s:)", "s:;"])
+                scope((K("WHERE"), K("END_RULE")))
+                if p.opt(K("WHERE")):
+                    out.append("k:WHERE")
+                    while not p.at(K("END_RULE")):
+                        if p.peek()[0] == "id" and p.peek(1) == S(":"):
+                            out.extend(["i:" + p.ident(), "s::"]); p.eat()
+                        p.expr_until(S(";")); p.eat(S(";")); out.extend(["E", "s:;"])
+                p.eat(K("END_RULE")); p.eat(S(";")); out.extend(["k:END_RULE", "s:;"])
+            else:
+                return
+    p.eat(K("SCHEMA")); out.extend(["k:SCHEMA", "i:" + p.ident()]); p.eat(S(";")); out.append("s:;")
+    if p.at(K("CONSTANT")): out.append(collapse_consts(upto(K("END_CONSTANT")))[1])
+    decls()
+    p.eat(K("END_SCHEMA")); p.eat(S(";")); out.extend(["k:END_SCHEMA", "s:;"])
+    return " ".join(x for x in out if x)
+
+
 def scopes_with_locals(ast):
     """every algorithm scope of a parsed schema (nested ones too) that has locals: list of [(name, type, init)]"""
     out = []
